@@ -17,3 +17,4 @@ def run(col, configs, tier):
         guarded(col, W.rule_floor_logs, facts, tier)
         guarded(col, W.rule_grisu, facts)
         guarded(col, X.rule_divisibility_test, facts)
+        guarded(col, X.rule_grisu_weed, facts)
